@@ -547,7 +547,9 @@ def loop_progress(chk, fn_path):
                     if "read" in txt:
                         has_read = True
         cond = n[1] if t == "while" else None
-        bounded = id(n) in getattr(chk, "counter_loops", ())  # a counter that only grows, compared with a bound the loop does not change
+        bounded = id(n) in getattr(chk, "counter_loops", ())
+        if cond is not None and H.tag(H.strip(cond)) == "letexpr" and any(H.tag(y) == "mcall" and y[2] == "next" for y in H.walk(H.strip(cond)[2])):
+            bounded = True  # `while let Some(x) = it.next()`: a `for` loop over the iterator, spelled out (judged like `for`)  # a counter that only grows, compared with a bound the loop does not change
         if cond is not None:
             c = H.strip(cond)
             if H.tag(c) == "bin" and c[2] in ("Lt", "Ne", "Le") and (H.lit_int(c[5]) is not None or H.tag(H.strip(c[5])) == "path"):
